@@ -414,11 +414,10 @@ func rulesC09(c *Ctx) {
 					if !isB || b.Op != token.LAND {
 						return false
 					}
-					_, y1, op1, ok1 := binaryCmp(b.X)
-					_, y2, op2, ok2 := binaryCmp(b.Y)
+					isCur := func(e ast.Expr) bool { return cursorVar != nil && hs.ObjOf(e) == cursorVar }
+					x1, y1, op1, ok1 := cmpOn(b.X, isCur)
+					x2, y2, op2, ok2 := cmpOn(b.Y, isCur)
 					s, isC := hs.ConstString(y1)
-					x1, _, _, _ := binaryCmp(b.X)
-					x2, _, _, _ := binaryCmp(b.Y)
 					prev, isLocal := hs.ObjOf(y2).(*types.Var)
 					// both comparisons are about the cursor returned by processStream; the second against the previous cursor (a local)
 					return ok1 && ok2 && op1 == token.NEQ && op2 == token.NEQ && isC && s == "" && cursorVar != nil && hs.ObjOf(x1) == cursorVar && hs.ObjOf(x2) == cursorVar && isLocal && !prev.IsField() && types.Object(prev) != cursorVar
@@ -446,7 +445,7 @@ func rulesC09(c *Ctx) {
 		okBudget := false
 		for _, cv := range g.condVertices() {
 			cond := g.Node(cv - 1).(ast.Expr)
-			x, y, op, ok := binaryCmp(cond)
+			x, y, op, ok := cmpOn(cond, func(e ast.Expr) bool { return hs.ObjOf(e) == ctr })
 			if ok && op == token.GTR && hs.ObjOf(x) == ctr && hs.IsField(y, maxRetries) && nInc == 1 && g.Dominates(incV, cv-1) {
 				t, _ := g.BranchTargets(cv - 1)
 				seen, _ := g.reach([]int{t}, nil, nil)
@@ -467,8 +466,8 @@ func rulesC09(c *Ctx) {
 			if !ok || fs.Cond == nil {
 				return
 			}
-			x, y, op, isCmp := binaryCmp(fs.Cond)
 			post, _ := fs.Post.(*ast.IncDecStmt)
+			x, y, op, isCmp := cmpOn(fs.Cond, func(e ast.Expr) bool { return !cs.IsField(e, maxRetries) })
 			if isCmp && (op == token.LEQ || op == token.LSS) && post != nil && post.Tok == token.INC && cs.ObjOf(x) != nil && cs.ObjOf(x) == cs.ObjOf(post.X) && cs.IsField(y, maxRetries) {
 				// select with done and ctx.Done arms
 				hasDone, hasCtx := false, false
